@@ -121,6 +121,7 @@ func (c *SubscriptionManager) RemoveSubscription(data model.SubscriptionManageme
 	defer c.mux.Unlock()
 
 	for _, item := range c.subscriptionEntries {
+		verifPoint("RemoveSubscription.scan")
 		itemAddress := item.ClientFeature.Address()
 
 		if !reflect.DeepEqual(itemAddress.Device, clientAddress.Device) ||
@@ -174,6 +175,7 @@ func (c *SubscriptionManager) RemoveSubscriptionsForEntity(remoteEntity api.Enti
 
 	var newSubscriptionEntries []*api.SubscriptionEntry
 	for _, item := range c.subscriptionEntries {
+		verifPoint("RemoveSubscriptionsForEntity.scan")
 		if !reflect.DeepEqual(item.ClientFeature.Address().Device, remoteEntity.Address().Device) ||
 			!reflect.DeepEqual(item.ClientFeature.Address().Entity, remoteEntity.Address().Entity) {
 			newSubscriptionEntries = append(newSubscriptionEntries, item)
